@@ -139,6 +139,7 @@ def main():
                     disagreements.append({"what": "meta=%s" % meta, "model": mt[:100], "capture": case.capture.hex(), "keylog": case.keylog})
     if m:
         ck.cov["oracle_queries"] = m.queries
+        ck.cov["model_runs_skipped"] = m.skipped
         m.close()
     impl.cleanup()
     ck.cov["traces_validated_against_impl"] = hist["model_runs"]
